@@ -455,6 +455,13 @@ def check_roundtrip(cls, recipe, rec=None):
         raise Violation("C14:partial-roundtrip-raises:after-merge", f"{type(e).__name__}: {str(e)[:300]}", "o")
     if not _veq(back2, o):
         raise Violation("C14:partial-roundtrip-differs:after-merge-with-empty", f"{_show(vals(o))} -> {_show(vals(back2))}", "same object")
+    # the same object handed over in its serialised (plain data) form: empty (+) data == the object
+    try:
+        back3 = cls.Partial().merge_with(json.loads(o.json())).from_partial()
+    except Exception as e:  # noqa: BLE001
+        raise Violation("C14:partial-roundtrip-raises:from-plain-data", f"{type(e).__name__}: {str(e)[:300]}", "o")
+    if not _veq(back3, o):
+        raise Violation("C14:partial-roundtrip-differs:from-plain-data", f"{_show(vals(o))} -> {_show(vals(back3))}", "same object")
     if rec is not None:
         rec.case(classes=["roundtrip_complete"])
 
